@@ -899,7 +899,8 @@ var c18DurUnits = []struct {
 	ns   uint64
 }{{"ns", 1}, {"us", 1e3}, {"µs", 1e3}, {"μs", 1e3}, {"ms", 1e6}, {"s", 1e9}, {"m", 6e10}, {"h", 36e11}, {"s", 1e9}, {"h", 36e11}, {"m", 6e10}}
 
-var c18FracHand = []string{"16777216.999999999s", "-16777216.999999999s", "16777215.999999999s", "4660h20m16.999999999s", "0.25h", "0.25000000000000h", "0.05m", "0.05000000000000m",
+var c18FracHand = []string{"9223372036854775808ns9223372036854775808ns", "9223372036854775808ns9223372036854775808ns1s", "-9223372036854775808ns9223372036854775808ns", "9223372036854775808ns9223372036854775807ns",
+	"9223372036854775808ns1ns", "9223372036854775808.00ns9223372036854775808.999ns2055869.906h", "16777216.999999999s", "-16777216.999999999s", "16777215.999999999s", "4660h20m16.999999999s", "0.25h", "0.25000000000000h", "0.05m", "0.05000000000000m",
 	"0.00000000005m", "0.00000000005000m", "9223372036.854775807s", "9223372036.854775808s", "-9223372036.854775808s", "-9223372036.854775809s", ".5h", "1.0000000000000000000000000001s",
 	"0.9223372036854775807s", "0.9223372036854775808s", "0.9223372036854775809s", "0.92233720368547758080s", "0.922337203685477580799s", "0.1ns", "0.9ns", "0.5ns", "1.5ns", "0.3us", "0.0003us",
 	"2562047.999999999999h", "2562047.788015215h", "2562047.7880152155h", "2562047.78801521550194h", "153722867.280912930m", "153722867.280912931m", "0.000000000000000000001h", "1.999999999s1.999999999s",
@@ -1104,6 +1105,11 @@ func c18SeqPrefixCase(r *Rand, z c18Zone) string {
 		}
 		if r.Chance(1, 6) && (op == "seqe" || prefix == "") {
 			s = prefix // empty input (with a prefix its answer depends on whether a format is remembered already: not in parallel)
+			// the prefix alone is a date of its own ("1986" = 1 Jan 1986 00:00, which Asia/Kathmandu skips): the per-instant
+			// zone oracle of this op cannot describe a local-time gap (op ztime covers gaps with the transition table)
+			if d, err := dateparse.ParseFormat(s); err == nil && c18Gap(d, s, z.loc) {
+				s = full
+			}
 		}
 		strs = append(strs, s)
 	}
